@@ -330,43 +330,45 @@ func runC01(r *Run) {
 		"call:match", "call:methodExist", "call:NewError", "global:ErrMethodNotAllowed",
 	}
 	r.rule("R5", "sibling agreement of the default and custom-context scanners on the dispatch alphabet (E5)", func() {
-		for _, pair := range [][2]string{{"(*App).next", "(*App).nextCustom"}, {"(*App).methodExist", "(*App).methodExistCustom"}} {
-			a := restrict(g.actionSet(r.Fn("", pair[0]), alias), nextAlphabet)
-			b := restrict(g.actionSet(r.Fn("", pair[1]), alias), nextAlphabet)
-			r.count("alphabet actions", len(a)+len(b))
-			onlyA, onlyB := actionDiff(a, b)
-			for _, x := range onlyA {
-				r.bad(pair[1]+":missing:"+x, r.fpos(r.Fn("", pair[1])), fmt.Sprintf("%s performs %q, %s does not (at %s) — custom-context apps dispatch differently", pair[0], x, pair[1], r.pos(a[x])))
+		withoutHelpers(func() { // attribution rule: each construct belongs to the one function that contains it
+			for _, pair := range [][2]string{{"(*App).next", "(*App).nextCustom"}, {"(*App).methodExist", "(*App).methodExistCustom"}} {
+				a := restrict(g.actionSet(r.Fn("", pair[0]), alias), nextAlphabet)
+				b := restrict(g.actionSet(r.Fn("", pair[1]), alias), nextAlphabet)
+				r.count("alphabet actions", len(a)+len(b))
+				onlyA, onlyB := actionDiff(a, b)
+				for _, x := range onlyA {
+					r.bad(pair[1]+":missing:"+x, r.fpos(r.Fn("", pair[1])), fmt.Sprintf("%s performs %q, %s does not (at %s) — custom-context apps dispatch differently", pair[0], x, pair[1], r.pos(a[x])))
+				}
+				for _, x := range onlyB {
+					r.bad(pair[0]+":missing:"+x, r.fpos(r.Fn("", pair[0])), fmt.Sprintf("%s performs %q, %s does not (at %s)", pair[1], x, pair[0], r.pos(b[x])))
+				}
+				if len(onlyA)+len(onlyB) == 0 {
+					r.ok(pair[0]+"≡"+pair[1], r.fpos(r.Fn("", pair[0])), "equal action sets on the dispatch alphabet: "+actionList(a))
+				}
 			}
-			for _, x := range onlyB {
-				r.bad(pair[0]+":missing:"+x, r.fpos(r.Fn("", pair[0])), fmt.Sprintf("%s performs %q, %s does not (at %s)", pair[1], x, pair[0], r.pos(b[x])))
+			// ordering facts inside each next*: match is called before route/matched are written; the handler runs after indexHandler=0
+			for _, fn := range []string{"(*App).next", "(*App).nextCustom"} {
+				f := r.Fn("", fn)
+				m := callsMatching(f, false, nameHasSuffix(".Route).match"))
+				r.need(len(m) == 1, fn+" calls Route.match once")
+				brs := ifsOnValue(f, m[0].Value())
+				r.need(len(brs) >= 1, fn+" branches on the match result")
+				for _, br := range brs {
+					slot, _ := br.truthSlot(false)
+					_, hit := reachEdge(edge{br.If.Block(), slot}, func(in ssa.Instruction) bool {
+						if g.instrWrites(in, "DefaultCtx.route") {
+							return true
+						}
+						if ci, ok := in.(ssa.CallInstruction); ok {
+							return strings.HasPrefix(calleeName(ci.Common()), "dynamic") || actionIsHandlerCall(ci)
+						}
+						return false
+					}, map[edge]bool{}, func(in ssa.Instruction) bool { return in == m[0].Instr })
+					r.check(hit == nil, fn+":no-match↛handler", r.pos(br.If), "from the no-match edge neither the route store nor a handler call is reachable before the next match attempt",
+						"a handler or the route store is reachable after a failed match without a new match")
+				}
 			}
-			if len(onlyA)+len(onlyB) == 0 {
-				r.ok(pair[0]+"≡"+pair[1], r.fpos(r.Fn("", pair[0])), "equal action sets on the dispatch alphabet: "+actionList(a))
-			}
-		}
-		// ordering facts inside each next*: match is called before route/matched are written; the handler runs after indexHandler=0
-		for _, fn := range []string{"(*App).next", "(*App).nextCustom"} {
-			f := r.Fn("", fn)
-			m := callsMatching(f, false, nameHasSuffix(".Route).match"))
-			r.need(len(m) == 1, fn+" calls Route.match once")
-			brs := ifsOnValue(f, m[0].Value())
-			r.need(len(brs) >= 1, fn+" branches on the match result")
-			for _, br := range brs {
-				slot, _ := br.truthSlot(false)
-				_, hit := reachEdge(edge{br.If.Block(), slot}, func(in ssa.Instruction) bool {
-					if g.instrWrites(in, "DefaultCtx.route") {
-						return true
-					}
-					if ci, ok := in.(ssa.CallInstruction); ok {
-						return strings.HasPrefix(calleeName(ci.Common()), "dynamic") || actionIsHandlerCall(ci)
-					}
-					return false
-				}, map[edge]bool{}, func(in ssa.Instruction) bool { return in == m[0].Instr })
-				r.check(hit == nil, fn+":no-match↛handler", r.pos(br.If), "from the no-match edge neither the route store nor a handler call is reachable before the next match attempt",
-					"a handler or the route store is reachable after a failed match without a new match")
-			}
-		}
+		})
 	})
 
 	r.rule("R6", "405 discipline: Allow is appended only after a match on a non-Use route of another method; 405 only when nothing matched (E1)", func() {
@@ -538,132 +540,134 @@ func runC01(r *Run) {
 	})
 
 	r.rule("R8", "cursor/bucket coherence: every function that assigns treePathHash or methodInt re-bases indexRoute on the same path, or all its callers do (E4c, belief rule)", func() {
-		selectors := []string{"DefaultCtx.treePathHash", "DefaultCtx.methodInt"}
-		n := 0
-		done := map[string]bool{}
-		for _, f := range g.Funcs {
-			if f.Pkg == nil || f.Pkg.Pkg.Path() != fiberMod {
-				continue
-			}
-			for _, sel := range selectors {
-				for _, fr := range fieldRefs(f) {
-					if !fr.Write || fr.Name != sel {
-						continue
-					}
-					n++
-					failing, why := rebasedAround(g, f, fr.Instr, map[*ssa.Function]bool{})
-					if len(failing) == 0 {
-						key := f.RelString(f.Pkg.Pkg) + ":" + sel
-						if !done[key] {
-							done[key] = true
-							r.ok(key, r.pos(fr.Instr), "indexRoute is re-based with this assignment: "+why)
-						}
-						continue
-					}
-					for _, top := range failing {
-						key := top + ":" + sel
-						if done[key] {
+		withoutHelpers(func() { // attribution rule: each construct belongs to the one function that contains it
+			selectors := []string{"DefaultCtx.treePathHash", "DefaultCtx.methodInt"}
+			n := 0
+			done := map[string]bool{}
+			for _, f := range g.Funcs {
+				if f.Pkg == nil || f.Pkg.Pkg.Path() != fiberMod {
+					continue
+				}
+				for _, sel := range selectors {
+					for _, fr := range fieldRefs(f) {
+						if !fr.Write || fr.Name != sel {
 							continue
 						}
-						done[key] = true
-						via := ""
-						if top != f.RelString(f.Pkg.Pkg) {
-							via = " (through " + f.Name() + ")"
-						}
-						r.bad(key, r.pos(fr.Instr), top+" assigns "+sel+via+", which selects another bucket/stack, but the scan cursor indexRoute keeps pointing into the old bucket: routes are skipped or run twice after a path/method override")
-					}
-				}
-			}
-		}
-		r.atLeast("selector assignments", n, 3)
-		// the re-based cursor: wherever indexRoute is assigned from a binary search over the bucket, the next index
-		// examined (cursor+1, next() pre-increments) must be the first route registered AFTER the current one.
-		// Sign-domain evaluation (E6): the search predicate over sign(tree[i].pos − current.pos) must be (F,F,T) and the
-		// cursor must be the search result − 1. (F,T,T) with offset 0 equals this only when the current route is in the bucket.
-		for _, f := range g.Funcs {
-			if f.Pkg == nil || f.Pkg.Pkg.Path() != fiberMod {
-				continue
-			}
-			for _, fr := range fieldRefs(f) {
-				if !fr.Write || fr.Name != "DefaultCtx.indexRoute" || fr.Val == nil {
-					continue
-				}
-				srch := dependsOn(fr.Val, func(v ssa.Value) bool {
-					c, ok := v.(*ssa.Call)
-					return ok && calleeName(&c.Call) == "sort.Search"
-				})
-				if srch == nil {
-					continue
-				}
-				call := srch.(*ssa.Call)
-				var pred *ssa.Function
-				for _, a := range call.Call.Args {
-					if mc, ok := a.(*ssa.MakeClosure); ok {
-						pred = mc.Fn.(*ssa.Function)
-					}
-				}
-				offset, okOff := int64(0), fr.Val == ssa.Value(call)
-				if bo, ok := fr.Val.(*ssa.BinOp); ok && bo.X == ssa.Value(call) {
-					if k, isC := constInt(asConst(bo.Y)); isC {
-						switch bo.Op {
-						case token.SUB:
-							offset, okOff = -k, true
-						case token.ADD:
-							offset, okOff = k, true
-						}
-					}
-				}
-				key := f.Name() + ":rebase-lands-before-first-later-route"
-				if pred == nil || !okOff {
-					r.undecided(key, r.pos(fr.Instr), "cursor is derived from sort.Search in a form the rule does not understand")
-					continue
-				}
-				// evaluate predicate on the three signs
-				var rets []*ssa.Return
-				for _, in := range instrsWhere(pred, isReturn) {
-					rets = append(rets, in.(*ssa.Return))
-				}
-				okPred := false
-				desc := "predicate is not a single comparison of tree[i].pos with the current position"
-				if len(rets) == 1 {
-					ci := decompose(retOperand(rets[0], 0))
-					if ci.Other != nil {
-						lhsIsElem := loadOfField(ci.Root, "Route.pos") && dependsOn(ci.Root, func(v ssa.Value) bool { _, ok := v.(*ssa.Parameter); return ok }) != nil
-						rhsIsElem := loadOfField(ci.Other, "Route.pos") && dependsOn(ci.Other, func(v ssa.Value) bool { _, ok := v.(*ssa.Parameter); return ok }) != nil
-						op := ci.Op
-						if ci.Neg {
-							op = negOp(op)
-						}
-						if rhsIsElem && !lhsIsElem {
-							op = flipOp(op)
-						}
-						if lhsIsElem != rhsIsElem {
-							ev := func(sign int) bool {
-								switch op {
-								case token.GTR:
-									return sign > 0
-								case token.GEQ:
-									return sign >= 0
-								case token.LSS:
-									return sign < 0
-								case token.LEQ:
-									return sign <= 0
-								case token.EQL:
-									return sign == 0
-								case token.NEQ:
-									return sign != 0
-								}
-								return false
+						n++
+						failing, why := rebasedAround(g, f, fr.Instr, map[*ssa.Function]bool{})
+						if len(failing) == 0 {
+							key := f.RelString(f.Pkg.Pkg) + ":" + sel
+							if !done[key] {
+								done[key] = true
+								r.ok(key, r.pos(fr.Instr), "indexRoute is re-based with this assignment: "+why)
 							}
-							desc = fmt.Sprintf("predicate on signs (<,=,>) = (%v,%v,%v), cursor = result%+d", ev(-1), ev(0), ev(1), offset)
-							okPred = !ev(-1) && !ev(0) && ev(1) && offset == -1
+							continue
+						}
+						for _, top := range failing {
+							key := top + ":" + sel
+							if done[key] {
+								continue
+							}
+							done[key] = true
+							via := ""
+							if top != f.RelString(f.Pkg.Pkg) {
+								via = " (through " + f.Name() + ")"
+							}
+							r.bad(key, r.pos(fr.Instr), top+" assigns "+sel+via+", which selects another bucket/stack, but the scan cursor indexRoute keeps pointing into the old bucket: routes are skipped or run twice after a path/method override")
 						}
 					}
 				}
-				r.check(okPred, key, r.pos(fr.Instr), "search predicate is `pos > current` and the cursor is result−1: the next route examined is the first one registered later",
-					"after a path override the cursor does not land directly before the first later-registered route of the new bucket ("+desc+"): when the rewriting route is not itself in the destination bucket the first later route is skipped")
 			}
-		}
+			r.atLeast("selector assignments", n, 3)
+			// the re-based cursor: wherever indexRoute is assigned from a binary search over the bucket, the next index
+			// examined (cursor+1, next() pre-increments) must be the first route registered AFTER the current one.
+			// Sign-domain evaluation (E6): the search predicate over sign(tree[i].pos − current.pos) must be (F,F,T) and the
+			// cursor must be the search result − 1. (F,T,T) with offset 0 equals this only when the current route is in the bucket.
+			for _, f := range g.Funcs {
+				if f.Pkg == nil || f.Pkg.Pkg.Path() != fiberMod {
+					continue
+				}
+				for _, fr := range fieldRefs(f) {
+					if !fr.Write || fr.Name != "DefaultCtx.indexRoute" || fr.Val == nil {
+						continue
+					}
+					srch := dependsOn(fr.Val, func(v ssa.Value) bool {
+						c, ok := v.(*ssa.Call)
+						return ok && calleeName(&c.Call) == "sort.Search"
+					})
+					if srch == nil {
+						continue
+					}
+					call := srch.(*ssa.Call)
+					var pred *ssa.Function
+					for _, a := range call.Call.Args {
+						if mc, ok := a.(*ssa.MakeClosure); ok {
+							pred = mc.Fn.(*ssa.Function)
+						}
+					}
+					offset, okOff := int64(0), fr.Val == ssa.Value(call)
+					if bo, ok := fr.Val.(*ssa.BinOp); ok && bo.X == ssa.Value(call) {
+						if k, isC := constInt(asConst(bo.Y)); isC {
+							switch bo.Op {
+							case token.SUB:
+								offset, okOff = -k, true
+							case token.ADD:
+								offset, okOff = k, true
+							}
+						}
+					}
+					key := f.Name() + ":rebase-lands-before-first-later-route"
+					if pred == nil || !okOff {
+						r.undecided(key, r.pos(fr.Instr), "cursor is derived from sort.Search in a form the rule does not understand")
+						continue
+					}
+					// evaluate predicate on the three signs
+					var rets []*ssa.Return
+					for _, in := range instrsWhere(pred, isReturn) {
+						rets = append(rets, in.(*ssa.Return))
+					}
+					okPred := false
+					desc := "predicate is not a single comparison of tree[i].pos with the current position"
+					if len(rets) == 1 {
+						ci := decompose(retOperand(rets[0], 0))
+						if ci.Other != nil {
+							lhsIsElem := loadOfField(ci.Root, "Route.pos") && dependsOn(ci.Root, func(v ssa.Value) bool { _, ok := v.(*ssa.Parameter); return ok }) != nil
+							rhsIsElem := loadOfField(ci.Other, "Route.pos") && dependsOn(ci.Other, func(v ssa.Value) bool { _, ok := v.(*ssa.Parameter); return ok }) != nil
+							op := ci.Op
+							if ci.Neg {
+								op = negOp(op)
+							}
+							if rhsIsElem && !lhsIsElem {
+								op = flipOp(op)
+							}
+							if lhsIsElem != rhsIsElem {
+								ev := func(sign int) bool {
+									switch op {
+									case token.GTR:
+										return sign > 0
+									case token.GEQ:
+										return sign >= 0
+									case token.LSS:
+										return sign < 0
+									case token.LEQ:
+										return sign <= 0
+									case token.EQL:
+										return sign == 0
+									case token.NEQ:
+										return sign != 0
+									}
+									return false
+								}
+								desc = fmt.Sprintf("predicate on signs (<,=,>) = (%v,%v,%v), cursor = result%+d", ev(-1), ev(0), ev(1), offset)
+								okPred = !ev(-1) && !ev(0) && ev(1) && offset == -1
+							}
+						}
+					}
+					r.check(okPred, key, r.pos(fr.Instr), "search predicate is `pos > current` and the cursor is result−1: the next route examined is the first one registered later",
+						"after a path override the cursor does not land directly before the first later-registered route of the new bucket ("+desc+"): when the rewriting route is not itself in the destination bucket the first later route is skipped")
+				}
+			}
+		})
 	})
 }
 
